@@ -68,7 +68,7 @@ reg('C13', 'exploration',
     'PIN lengths 4..12 x PAN lengths 13..19 x seven class flavours are enumerated with seeded digits (20 / 150 repetitions, each '
     'digit value forced at each position), supplied fills {1, 2^63, 2^64-1, seeded} and none, TDES keys of 16/24 and AES keys '
     'of 16/24/32 bytes. Clear block, PIN recovered from clear bytes, ciphertext and PIN recovered from ciphertext are each '
-    'compared with the reference; every format-0 case is followed, in the same process, by the same PIN on six neighbouring cards (one digit changed) and a neighbouring PIN on the same card. Freshness: 2 000 / 20 000 format-4 fills never repeat and cover all 64 bit positions; blocks built in four forked children share no fill.',
+    'compared with the reference; every format-0 case is followed, in the same process, by the same PIN on six neighbouring cards (one digit changed) a neighbouring PIN on the same card, and the used object pointed at another card and built again. Freshness: 2 000 / 20 000 format-4 fills never repeat and cover all 64 bit positions; blocks built in four forked children share no fill.',
     'Trusts vmon/ref/crypto.py (FIPS known answers; cross-checked against the cryptography package at setup) and vmon/ref/cards.py. '
     'A finite run cannot decide randomness, only non-repetition and width. Fill 0 is outside the quantifier.')
 
@@ -103,7 +103,7 @@ reg('C12', 'exploration',
     'Boundary sweep enumerated completely in both tiers (first value length 940..992 x second 0..60 x third absent/0/1/30: the '
     'running carrier length crosses 985..1005 at every position), exact 999 fills, zero-length values, digit-only values that '
     'look like headers, sets needing exactly 1..5 carriers, seeded sets of up to 60 tags in shuffled insertion order, generated '
-    'configurations with other carrier bits and shuffled key order, latin_1 and EBCDIC. Held on the executions produced.',
+    'configurations with other carrier bits and shuffled key order (a quarter of the cases on a throwaway copy of the configuration, an eighth on a copy used once and then edited so that a carrier moves to another element), latin_1 and EBCDIC. Held on the executions produced.',
     'Trusts vmon/ref/codec.py (pack_pds, lenient decoder). PDS sets exceeding the configured carriers are outside the statement.')
 
 reg('C16', 'exploration',
@@ -121,7 +121,7 @@ reg('C17', 'exploration',
     'large, spanning the first block boundary, longer than the 2 500-byte sample, and a shape with 0x40-character text everywhere '
     'except under offset 1012; MTI digits varied, x {latin_1, ascii, cp1252, cp500, cp037, cp1140} x {VBS, '
     '1014}. Invalid classes: every length 0..23, the 24-byte header, first length max / max+1 (also with the configured maximum changed at run time to 24, 3 000 and 9 000), every bit 2..128 in the '
-    'first bitmap (alone and next to configured elements, bit 1 on and off). Unblocked files with 0x40 0x40 at bytes 1012-1013 are not judged on the blocking answer.',
+    'first bitmap (alone and next to configured elements, bit 1 on and off), and six live edits of bit_config (elements given / deprived of a configuration after an earlier inspection). Unblocked files with 0x40 0x40 at bytes 1012-1013 are not judged on the blocking answer.',
     'Files come from the real IpmWriter under the packaged configuration; vmon/ref/codec.py is used only to size them.')
 
 reg('C07', 'fault_enumeration',
@@ -131,7 +131,7 @@ reg('C07', 'fault_enumeration',
     'all 256 values, every length field rewritten to negative / zero / at-over-far-over spellings, the content of every typed element replaced by 35 special words (NaN, Infinity, exponents, impossible dates), truncation at every offset, '
     'seeded multi-point mutation, random byte strings; the same at file level (record prefixes, block trailers, terminator, '
     'embedded message faults) through both readers and both extraction tools in-process, and the two extraction commands as real '
-    'processes (no traceback on stderr), three tools incl. mideu convert, also on valid-but-awkward files (carriers that are full after sorting, non-numeric PDS tags), 23 ICC tails and BER long-form lengths (0x81..0x84 with values pointing back at the tag, at the length byte, nowhere, far ahead) on every DE55; paramconv among the tools; CPU time for 8 MB vs 1 MB of the same records must scale under 24x. Non-termination is decided as bounded '
+    'processes (no traceback on stderr), three tools incl. mideu convert, also on valid-but-awkward files (carriers that are full after sorting, non-numeric PDS tags), 23 ICC tails and BER long-form lengths (0x81..0x84 with values pointing back at the tag, at the length byte, nowhere, far ahead) on every DE55; paramconv among the tools; messages ending inside their own header; every guarded call under a kernel-enforced CPU allowance (time spent in C code, e.g. a backtracking pattern, is a violation with the input as witness) and 300 merchant-location shapes per encoding decoded in a CPU-limited child; CPU time for 8 MB vs 1 MB of the same records must scale under 24x. Non-termination is decided as bounded '
     'progress (20 000 + 100 executed cardutil lines per input byte), not wall-clock.',
     'Bounded progress stands in for termination (worst legitimate path measured < 10 lines/byte). vmon/ref/codec.py lays out the bases. '
     'A hang inside C code that emits no line events would only trip the per-shard wall-clock watchdog (inconclusive).')
@@ -148,7 +148,7 @@ reg('C08', 'fault_enumeration',
 
 reg('C10', 'fault_enumeration',
     'runtime monitor: real IpmReader and the extraction tool run on files whose k-th record carries an injected fault; records delivered, exception attributes and the operator line observed for every k',
-    'n = 1..10 (quick) / 1..12, 17, 25, 40 (thorough) records x every position k x eight ways of walking the reader x ten fault kinds (a bad decimal value under a caller-supplied configuration, truncated record, oversized '
+    'n = 1..10 (quick) / 1..12, 17, 25, 40 (thorough) records x every position k x eight ways of walking the reader x eleven fault kinds (a record ending inside its own header, a bad decimal value under a caller-supplied configuration, truncated record, oversized '
     'length, undecodable MTI (a quarter of the lists with records over 2 KB; truncation points: anywhere, straight after the length prefix, on a fill byte of a block, after two fill-valued data bytes; the context of a truncated record must be all its surviving bytes), unknown bitmap bit, bad field length, bad typed value, bad PDS content, bad ICC content, trailing '
     'bytes) x {VBS, 1014} x {latin_1, cp500}: exactly k-1 records equal to the strict reference decode, MciIpmDataError with '
     'record_number == k and binary_context_data == prefix + raw bytes of record k, and "Error detected in record k" printed by '
@@ -176,7 +176,7 @@ reg('C18', 'exploration',
 
 reg('C19', 'exploration',
     'runtime monitor: the four conversion tools run (function, cli_run and argument-parser entry points, real files) on writer-produced inputs; converted records read by the real reader and by the reference decoder, then converted back and compared byte for byte',
-    'All 6 ordered pairs of {latin_1, cp500, cp037} x {vbs,1014}^2 for mci_ipm_encode and mci_ipm_param_encode, both fixed '
+    'All 6 ordered pairs of {latin_1, cp500, cp037} x {vbs,1014}^2 (plus layout-only conversions with the same encoding on both sides) for mci_ipm_encode and mci_ipm_param_encode, both fixed '
     'directions x {blocked, unblocked} for mideu convert and paramconv, 12 (quick) / 150 (thorough) repetitions with fresh '
     'message lists (PDS entries, raw carriers, binary DE55, typed elements, all element subsets) and arbitrary-byte parameter '
     'records (a third of the unblocked ones blank-padded with fill-valued bytes where a blocked file has its fill), one input of more than 1 MiB per tool runs with the documented default arguments and with the derived output name (input must stay unchanged): record count, order and values preserved (DE55 byte-identical), output well blocked, and the return conversion '
